@@ -474,8 +474,9 @@ def finish(evidence, agg):
 
 
 SUBCHECKS = [
-    Sub("table", table_cases(), check_table, 24000, 300000, ("asm",), ("asm", "p64", "p32")),
-    Sub("irregular", irreg_cases(), check_irreg, 4000, 50000, ("asm",), ("asm", "p64", "p32")),
+    # p64-O0: an aliased operand that ends up in a __restrict position only misbehaves when the compiler does not keep the old limb in a register
+    Sub("table", table_cases(), check_table, 24000, 300000, ("asm",), ("asm", "p64", "p32", "p64-O0")),
+    Sub("irregular", irreg_cases(), check_irreg, 4000, 50000, ("asm",), ("asm", "p64", "p32", "p64-O0")),
     Sub("hash_alias", hash_alias_cases(), check_hash_alias, 1500, 20000, ("asm",), ("asm", "p32")),
     Sub("capi", capi_cases(), check_capi, 6000, 70000, ("asm",), ("asm", "p64", "p32")),
 ]
